@@ -10,7 +10,7 @@
    through which tasks share objects); pre-emption inside a line, inside generator bodies or C calls, the fidelity of
    pickling and the process start method are not modelled -- process pools are the copy-in / result-out backend
    [Copying].  The model is tied to /repo by the correspondence run (traced-thread pool, real pools). *)
-From Coq Require Import ZArith List Bool PrimFloat.
+From Coq Require Import ZArith List Bool PrimFloat Lia.
 Require Import PV.Base.Val PV.Model.Sched PV.Proofs.Sched.
 Import ListNotations.
 Open Scope Z_scope.
@@ -70,6 +70,46 @@ Theorem C03_every_job_of_a_history_default_executor :
     = map (fun j => spec_results draw (fst (fst j)) (snd (fst j)) parts) js /\
   cache_ok draw lin parts (snd (run_jobs_local draw today js parts driver sh)).
 Proof. exact history_local. Qed.
+
+(* --- unpersist() ------------------------------------------------------------------------------------------------------
+   PersistedRDD.unpersist deletes every (id, partition) of the dataset from the DRIVER's cache (where the entries
+   computed by pool workers were joined): afterwards no partition of it is cached ... *)
+Theorem C03_unpersist_removes_every_partition :
+  forall n id c i, (i < n)%nat -> c_get (c_unpersist n id c) (id, Z.of_nat i) = None.
+Proof. exact c_unpersist_gone. Qed.
+(* ... the entries of other datasets stay ... *)
+Theorem C03_unpersist_keeps_other_datasets :
+  forall n id c k d, In (k, d) c -> fst k <> id -> In (k, d) (c_unpersist n id c).
+Proof. exact c_unpersist_keeps. Qed.
+(* ... histories of jobs and unpersist() calls: on a pool, step by step and for the final cache_obj, exactly what the
+   default executor gives, every job returning the sequential result ... *)
+Theorem C03_histories_with_unpersist :
+  forall draw lin parts b ss, Forall (step_ok lin) ss ->
+  forall driver sh, cache_ok draw lin parts driver ->
+  run_steps draw b today ss parts driver sh = run_steps_local draw today ss parts driver sh /\
+  fst (run_steps draw b today ss parts driver sh)
+    = map (fun j => spec_results draw (fst (fst j)) (snd (fst j)) parts) (jobs_of ss) /\
+  cache_ok draw lin parts (snd (run_steps draw b today ss parts driver sh)).
+Proof. exact steps_pool_equals_default. Qed.
+(* ... and freshness: with NO assumption that the cache is right (the source may have changed since it was filled; only
+   the partition indices are in range), once the persisted datasets of a lineage are unpersisted the next action on it,
+   on any backend and schedule, returns the data of the CURRENT source, whatever stale entries of other datasets remain *)
+Theorem C03_unpersist_then_fresh :
+  forall draw lin parts r tf driver, wf lin r -> tfun_pure tf = true -> idx_in_range (length parts) driver ->
+  forall b sched sh,
+  o_results (run_job draw b today r tf parts sched (unpersist_all (length parts) (ids r) driver) sh)
+  = spec_results draw r tf parts.
+Proof. exact unpersist_then_fresh. Qed.
+(* non-vacuity: a stale cache (entries computed from another source), unpersist, fresh results *)
+Example ex_unpersist_fresh :
+  let stale := [((4, 0), [99]); ((4, 1), [98; 97]); ((7, 0), [5])] in
+  let r := Persist 4 (Map (fun x => [x + 1]) Src) in
+  idx_in_range 2 stale /\
+  o_results (run_job draw_const InProcess today r FCollect two_parts [1; 0; 1]%nat stale shared0) = [Some [99]; Some [98; 97]] /\
+  o_results (run_job draw_const InProcess today r FCollect two_parts [1; 0; 1]%nat (unpersist_all 2 (ids r) stale) shared0)
+    = [Some [1; 2]; Some [3; 4]] /\
+  unpersist_all 2 (ids r) stale = [((7, 0), [5])].
+Proof. split; [intros k d [H|[H|[H|[]]]]; inversion H; simpl; lia|]. vm_compute. repeat split. Qed.
 
 (* --- backend and schedule independence without any assumption on the cache or the lineage ------------------------
    a task program that writes only to its own state (its return value and its cache clone) gives the same results, the
